@@ -378,7 +378,7 @@ var allowedPkgPrefixes = []string{
 	"k8s.io/apimachinery/pkg/apis/meta/v1",
 	"k8s.io/apimachinery/pkg/runtime/schema",
 	"k8s.io/api/",
-	"sort", "errors", "strings", "unicode", "unicode/utf8", "math/bits", "slices", "cmp",
+	"sort", "errors", "strings", "unicode", "unicode/utf8", "math/bits", "slices", "cmp", "sync", "maps",
 }
 
 func (in *Interp) allowed(fn *ssa.Function) bool {
